@@ -181,8 +181,8 @@ Inductive effect :=
 (* outcome of peers.addPeer(conn, peer) (pkg/p2p/libp2p/peers.go) *)
 Inductive add_res :=
 | Added          (* entry created, returns false *)
-| AlreadyThere   (* an entry for that address exists (open or closed connection), returns true *)
-| ClosedAbsent.  (* connection already closed and no entry: nothing tracked, returns false *)
+| NotAdded.      (* returns true: an entry for that address exists, or the connection has already
+                    closed (nothing is tracked then) *)
 
 (* the switch on errors.Is(...) : first, second, third case of the extracted table *)
 Definition block_effects (durs : list Z) (c : refusal) : list effect :=
@@ -202,9 +202,22 @@ Definition handle_connect_req (has_notifier : bool) (add : add_res) (r : result)
   | Refuse c => EResetStream :: EClosePeer :: block_effects c04_inbound_durations c
   | Enrol a t =>
       match add with
-      | AlreadyThere => [EResetStream]
+      | NotAdded => [EResetStream]
       | Added => ERegister a t :: (if has_notifier then [ENotify a t] else [])
-      | ClosedAbsent => if has_notifier then [ENotify a t] else []
+      end
+  end.
+
+(* before the repair of addPeer (it answered false for an already closed connection without an
+   entry): the peer was announced although nothing had been registered *)
+Inductive add_res_v0 := Added_v0 | AlreadyThere_v0 | ClosedAbsent_v0.
+Definition handle_connect_req_v0 (has_notifier : bool) (add : add_res_v0) (r : result) : list effect :=
+  match r with
+  | Refuse c => EResetStream :: EClosePeer :: block_effects c04_inbound_durations c
+  | Enrol a t =>
+      match add with
+      | AlreadyThere_v0 => [EResetStream]
+      | Added_v0 => ERegister a t :: (if has_notifier then [ENotify a t] else [])
+      | ClosedAbsent_v0 => if has_notifier then [ENotify a t] else []
       end
   end.
 
@@ -215,7 +228,7 @@ Definition connect (add : add_res) (r : result) : list effect :=
   | Enrol a t =>
       match add with
       | Added => [ERegister a t; EReturnPeer a t]
-      | _ => [EReturnPeer a t]
+      | NotAdded => [EReturnPeer a t]
       end
   end.
 
